@@ -2177,4 +2177,35 @@ theorem bwriteLoop_all (c : Chan) (k : Nat) (acc : Bytes) (h : ChanWF c) (hk : c
       simp only [ha0, if_true]
       exact hd0
 
+/-- what a `Buffer` operation does to the pending bytes, as a FIFO -/
+def bspecData (d : Bytes) (space : Nat) : BOp → Bytes
+  | .write bytes => d ++ bytes.take (min bytes.length space)
+  | .consume n => d.drop n
+  | .read n => d.drop n
+  | .reset => []
+  | _ => d
+
+theorem bstep_spec (b : Buffer) (op : BOp) (h : b.WF) :
+    (bstep b op).1.WF ∧ (bstep b op).1.data = bspecData b.data b.availSpace op := by
+  obtain ⟨h1, h2, h3⟩ := h
+  cases op with
+  | write bytes =>
+    have hle : (bytes.take (min bytes.length b.availSpace)).length ≤ b.availSpace := by
+      simp only [List.length_take]; omega
+    exact ⟨wf_fill _ _ ⟨h1, h2, h3⟩, by simp only [bstep, bspecData]; exact fill_data _ _ ⟨h1, h2, h3⟩ hle⟩
+  | consume n => exact ⟨wf_consume _ _ ⟨h1, h2, h3⟩, consume_data _ _ ⟨h1, h2, h3⟩⟩
+  | shift => exact ⟨wf_shift _ ⟨h1, h2, h3⟩, shift_data _⟩
+  | grow n => exact ⟨wf_grow _ _ ⟨h1, h2, h3⟩, grow_data _ _⟩
+  | shrink n => exact ⟨wf_shrink _ _ ⟨h1, h2, h3⟩, shrink_data _ _⟩
+  | reset => exact ⟨⟨Nat.le_refl _, Nat.zero_le _, rfl⟩, rfl⟩
+  | read n =>
+    refine ⟨⟨?_, ?_, ?_⟩, ?_⟩
+    · simp only [bstep, Buffer.availData]; omega
+    · exact h2
+    · simp only [bstep, Buffer.availData, List.length_drop]; omega
+    · simp only [bstep, bspecData, Buffer.availData]
+      by_cases hn : n ≤ b.fin - b.pos
+      · rw [Nat.min_eq_right hn]
+      · rw [Nat.min_eq_left (by omega), List.drop_eq_nil_of_le (by omega), List.drop_eq_nil_of_le (by omega)]
+
 end Sozu.Channel
